@@ -1,5 +1,6 @@
 import Ww.Driver.Proto
 import Ww.Model.Glob
+import Ww.Model.Router
 namespace Ww.Driver
 open Ww.Model
 
@@ -47,7 +48,9 @@ def handleALog (l : Line) : List Verdict :=
     let pats := (← l.strs? "pats").map String.toList
     let urlpath ← l.chars? "urlpath"
     let reqstr ← l.str? "reqstr"
-    let nav ← l.bool? "nav"
+    let navHarness ← l.bool? "nav"
+    let method ← l.get? "method"
+    let nav := isNavigation method (← l.str? "sfmode") (← l.str? "sfdest") (acceptsMedia (← l.str? "accept") "text/html")
     let referer ← l.str? "referer"
     let authed ← l.bool? "authed"
     let status ← l.nat? "status"
@@ -63,7 +66,7 @@ def handleALog (l : Line) : List Verdict :=
     let matched := if prefix_.isPrefixOf urlpath then String.ofList prefix_ else ""
     let loginPath := matched ++ "/oauth2/login"
     let wantRedirect := if nav then reqstr else if referer != "" then referer else matched
-    let diffs := cmp "forwarded" fwd (!needs) ++ (if needs then cmp "status" status (if nav then 302 else 401) else [])
+    let diffs := cmp "navigation (harness' own reading vs the model)" navHarness nav ++ cmp "forwarded" fwd (!needs) ++ (if needs then cmp "status" status (if nav then 302 else 401) else [])
     let viol : List (String × String) :=
       (if fwd && !authed && !ign then [(if hasDotSeg urlpath then "C12.dotseg_bypass" else "C12.forwarded_unmatched", s!"{String.ofList urlpath} reached the upstream unauthenticated")] else []) ++
       (if !fwd && (authed || ign) then [("C12.ignored_path_blocked", s!"{String.ofList urlpath} not forwarded (status {status})")] else []) ++
